@@ -377,6 +377,10 @@ def do_xparse(run, model, case):
             bad = f'parsed fields {k} do not match the bytes'
         elif impl['ok']['again'] != want.hex():
             bad = 're-serialised key differs from the input outside the parent fingerprint'
+        elif k['kind'] == 'pub' and ec_decompress(e[45:]) is None:
+            bad = 'accepted a public key that is not a curve point'
+        elif k['kind'] == 'priv' and not 0 < int.from_bytes(e[46:], 'big') < ORDER:
+            bad = 'accepted a private key outside 1..n-1'
     else:
         # a well-formed key must be accepted
         wf = len(e) == 78 and ((e[:4] == bytes.fromhex(v['ver_pub']) and ec_decompress(e[45:]) is not None) or
@@ -503,7 +507,8 @@ def do_derive(run, model, case):
             elif 'ok' in pr:
                 bad = f'{where}: hardened child derived from a public key'
         if bad:
-            run.violation(case, bad, signature=sig)
+            small = dict(case, path=path[:step + 1])
+            run.violation(small, bad, signature=dict(sig, path=path[:step + 1]))
             return
         run.count('derive:index:' + ('hardened' if n >= H else 'normal'))
         if mstep is None or 'ok' not in mstep:
@@ -606,7 +611,14 @@ def do_account(run, model, case):
                         await ledger.db.set_address_history(pk.address, 'ab:1:' * op[3])
                         returns.append(None)
                     snapshots.append([await rows(0), await rows(1)])
+                signing = []
+                for c in (0, 1):
+                    rs = await rows(c)
+                    for r in rs[:2] + rs[-2:]:
+                        signing.append([c, r['n'], r['addr'], chains[c].get_private_key(r['n']).address,
+                                        chains[c].get_public_key(r['n']).address])
                 out = {'xpub': acc.public_key.extended_key_string(), 'acct': key_obs(acc.public_key),
+                       'signing': signing,
                        'snapshots': snapshots, 'returns': returns,
                        'records': [await chains[c].get_addresses() for c in (0, 1)],
                        'max_gap': [await chains[c].get_max_gap() for c in (0, 1)],
@@ -670,6 +682,9 @@ def do_account(run, model, case):
             if ret != fresh:
                 bad = f'account.ensure_address_gap returned {ret} but added {fresh}'
         prev = snap
+    for c, n, addr, via_priv, via_pub in impl['signing']:
+        if not bad and not (addr == via_priv == via_pub):
+            bad = f'chain {c} index {n}: listed address {addr}, private-key route {via_priv}, public-key route {via_pub}'
     if bad:
         run.violation(case, bad, signature=sig)
         return
@@ -850,10 +865,64 @@ def do_scalar(run, model, case):
     run.compare('C06.pub_add_oracle', case, pimpl.get('ok'), ec_pub_add(ec_pub(k), t).hex() or None)
 
 
+def do_single(run, model, case):
+    """single-address account: both chains are the account key's own address, generated once"""
+    lname = case['ledger']
+    prefix = LEDGERS[lname].pubkey_address_prefix
+    tmp = tempfile.mkdtemp(prefix='c06_')
+    loop = asyncio.new_event_loop()
+    run.case(case, nontrivial=True, sample=False)
+    run.count('account:single-address')
+    try:
+        async def go():
+            ledger = LEDGERS[lname]({'db': Database(os.path.join(tmp, 'w.db')), 'headers': Headers(':memory:')})
+            await ledger.db.open()
+            try:
+                acc = Account.from_dict(ledger, Wallet(), {'seed': case['mnemonic'],
+                                                           'address_generator': {'name': 'single-address'}})
+                first = await acc.ensure_address_gap()
+                second = await acc.ensure_address_gap()
+                return {'first': list(first), 'second': list(second),
+                        'receiving': await acc.receiving.get_addresses(), 'change': await acc.change.get_addresses(),
+                        'pk': acc.public_key.pubkey_bytes.hex(), 'priv_addr': acc.receiving.get_private_key(0).address}
+            finally:
+                await ledger.db.close()
+        impl = loop.run_until_complete(go())
+    finally:
+        loop.close()
+        shutil.rmtree(tmp, ignore_errors=True)
+    seed = hashlib.pbkdf2_hmac('sha512', ' '.join(case['mnemonic'].lower().split()).encode(), b'lbryum', 2048, 64)
+    want = RefKey.from_seed(seed).address(prefix)
+    if not (impl['first'] == impl['receiving'] == impl['change'] == [want] and impl['second'] == [] and impl['priv_addr'] == want):
+        run.violation(case, f'single-address account: {impl}, expected the one address {want}',
+                      signature={'op': 'single', 'mnemonic': case['mnemonic']})
+        return
+    run.compare('C06.address', case, {'ok': want}, model.call('address', prefix=prefix.hex(), pk=impl['pk']))
+
+
+def do_stretch(run, model, case):
+    """Mnemonic.mnemonic_to_seed (PBKDF2-HMAC-SHA512, 2048 rounds, not modelled) against hashlib, then the
+    master key of that seed against the model"""
+    text, pw = case['text'], case['password']
+    run.case(case, nontrivial=True, sample=False)
+    run.count('stretch')
+    impl = guarded(lambda: Mnemonic.mnemonic_to_seed(text, pw))
+    norm = lambda x: ' '.join(x.lower().split())
+    want = hashlib.pbkdf2_hmac('sha512', norm(text).encode(), norm(pw).encode(), 2048, 64)
+    if impl != {'ok': want}:
+        run.violation(case, f'mnemonic_to_seed({text!r}, {pw!r}) differs from PBKDF2-HMAC-SHA512',
+                      signature={'op': 'stretch', 'text': text, 'password': pw})
+        return
+    led = get_ledger('main')
+    root = guarded(lambda: key_obs(Account.get_private_key_from_seed(led, text, pw)))
+    want_pw = hashlib.pbkdf2_hmac('sha512', norm(text).encode(), norm(pw or 'lbryum').encode(), 2048, 64)
+    run.compare('C06.from_seed', case, root, model.call('from_seed', seed=want_pw.hex()))
+
+
 DISPATCH = {
     'b58enc': do_b58enc, 'b58dec': do_b58dec, 'b58check': do_b58check, 'b58check_corrupt': do_b58check_corrupt,
     'xparse': do_xparse, 'xstr': do_xstr, 'derive': do_derive, 'forced': do_forced, 'account': do_account,
-    'mn': do_mn, 'mndec': do_mndec, 'wordlists': do_wordlists, 'make_seed': do_make_seed, 'scalar': do_scalar,
+    'single': do_single, 'stretch': do_stretch, 'mn': do_mn, 'mndec': do_mndec, 'wordlists': do_wordlists, 'make_seed': do_make_seed, 'scalar': do_scalar,
 }
 
 # ----------------------------------------------------------------------------------------------
@@ -1184,6 +1253,17 @@ def main(run):
         check_case(run, model, case)
     for case in gen_account(rng, 24 * n):
         check_case(run, model, case)
+    english = wordlist('english')
+    for _ in range(3 * n):
+        check_case(run, model, {'op': 'single', 'ledger': rng.choice(['main', 'regtest']),
+                                'mnemonic': ' '.join(rng.choice(english) for _ in range(rng.choice([1, 12])))})
+    for _ in range(6 * n):
+        ws = [rng.choice(english) for _ in range(rng.choice([1, 2, 12]))]
+        text = rng.choice([' ', '  ', '\t', '\n']).join(w.upper() if rng.random() < 0.2 else w for w in ws)
+        if rng.random() < 0.3:
+            text = ' ' + text + '  '
+        check_case(run, model, {'op': 'stretch', 'text': text,
+                                'password': rng.choice(['', '', 'lbryum', 'Pass word', 'x' * rng.randint(1, 40)])})
     for case in gen_mn(rng, 300 * n, 200 if q else 3000):
         check_case(run, model, case)
     for j in range(3 * n):
